@@ -133,7 +133,7 @@ class Observer:
     def on_shave(self, has_shaved):
         pass
 
-    def on_consistency(self, idx, status):
+    def on_consistency(self, idx, status, args):
         pass
 
 
